@@ -12,6 +12,7 @@ pub mod spec {
 }
 pub open spec fn sig_at(d: Seq<u8>, p: int, sig: u32) -> bool { inb(d, p, 4) && de32(at(d, p, 4)) == sig }
 //@include spec/appnote_headers.rs
+//@include spec/dos_datetime.rs
 //@include spec/extra_walk.rs
 //@include spec/parsed.rs
 //@include spec/zfd_views.rs
